@@ -20,7 +20,44 @@ from .. import common as C
 
 DRIVER = os.path.join(C.HOME, "harness", "c24_driver.py")
 FN = "nifty.re.optimize_kl.optimize_kl"
-NAMES = {"last.pkl": "Last", "last.pkl.tmp": "Tmp", "minisanity.txt": "Log"}
+NAMES = {"last.pkl": "Last", "last.pkl.tmp": "Tmp", "minisanity.txt": "Log", "@ext": "Ext"}
+
+
+def eff(cfg, r):
+    """The `resume` argument of a run: r (False = first run, True = restart) unless the
+    configuration passes a string ("ext": an existing checkpoint outside the output directory,
+    "missing": a path that does not exist) -- then every run, first or restart, passes that string."""
+    return cfg.get("resume0") or r
+
+
+def rm(cfg, r):
+    m = eff(cfg, r)
+    if m == "ext":
+        return "(RPath (Some %s))" % C.cnat(cfg["ext_from"])
+    if m == "missing":
+        return "(RPath None)"
+    return "RYes" if m else "RNo"
+
+
+def public(cfg):
+    return {k: v for k, v in cfg.items() if not k.startswith("_")}
+
+
+def ensure_ckpt(ctx, cfg, wd):
+    """For a configuration with resume0 == "ext": produce the checkpoint (last.pkl of a run of
+    ext_from iterations in another directory) and record its path."""
+    if cfg.get("resume0") != "ext":
+        return
+    pre = {k: v for k, v in cfg.items() if k not in ("resume0", "ext_from", "_ext_path")}
+    pre["n_iter"] = cfg["ext_from"]
+    shutil.rmtree(wd, ignore_errors=True)
+    os.makedirs(wd)
+    rep = drive(ctx, wd, "pre", pre, False)
+    if rep["outcome"] != "ok":
+        raise C.MachineryError("C24: the run producing the external checkpoint failed: %r" % (rep.get("error"),))
+    path = os.path.join(wd, "checkpoint.pkl")
+    shutil.copyfile(os.path.join(wd, "odir", "last.pkl"), path)
+    cfg["_ext_path"] = path
 KINDS = {"open-w": "TOpenW", "open-a": "TOpenA", "open-r": "TOpenR", "write": "TWrite", "close": "TClose"}
 HEADER = "From Coq Require Import List Arith Bool. Import ListNotations.\nRequire Import NV.C24.Model.\n"
 WORKERS = 8
@@ -124,8 +161,8 @@ def run_chain(ctx, wd, case, cps, r0=False):
     os.makedirs(wd)
     reps = []
     for i, (k, mode, frac) in enumerate(cps):
-        reps.append(drive(ctx, wd, "c%d" % i, case, r0 if i == 0 else True, int(k), mode, float(frac)))
-    reps.append(drive(ctx, wd, "final", case, True if cps else r0))
+        reps.append(drive(ctx, wd, "c%d" % i, case, eff(case, r0 if i == 0 else True), int(k), mode, float(frac)))
+    reps.append(drive(ctx, wd, "final", case, eff(case, True if cps else r0)))
     return reps
 
 
@@ -141,7 +178,9 @@ def gen_configs(ctx):
         c.update(kw)
         return c
     if ctx.quick:
-        return [(base(2), "medium", 2, False)]
+        return [(base(2), "medium", 2, False),
+                # resume="<existing checkpoint outside odir>" (state after 1 iteration), every run passes it again
+                (base(2, resume0="ext", ext_from=1), "light", 1, False)]
     # (configuration, enumeration level, number of random crash chains, also first runs with resume=True)
     return [
         (base(3), "full", 6, True),
@@ -150,6 +189,8 @@ def gen_configs(ctx):
         (base(3, tree=True, data=[round(float(x), 3) for x in rng.normal(size=4)], point_estimates=["b"],
               sample_modes=["linear_resample", "linear_resample", "nonlinear_resample"]), "light", 2, False),
         (base(2, n_samples=0, jit=False), "light", 0, True),          # MAP run, no jit
+        (base(3, resume0="ext", ext_from=1), "medium", 3, False),     # resume="<existing checkpoint>"
+        (base(2, resume0="missing"), "light", 2, False),              # resume="<path that does not exist>"
     ]
 
 
@@ -236,6 +277,13 @@ def extras_of(ops, n_iter):
     return (out + [0] * n_iter)[:max(n_iter, len(out))]
 
 
+def extras_for(cfg, ops, n):
+    """extras indexed by the iteration whose state is dumped (a run resumed from a checkpoint with
+    nit = ext_from dumps iterations ext_from+1, ... only)."""
+    j = cfg.get("ext_from", 0) if cfg.get("resume0") == "ext" else 0
+    return ([0] * j + extras_of(ops, n - j))[:max(n, 1)]
+
+
 def cps_coq(cps):
     return C.clist(["(%s, %s)" % (C.cnat(k), C.cbool(mode != "flush")) for k, mode, _ in cps])
 
@@ -248,7 +296,8 @@ def last_coq(pre):
     return "(LValid %s)" % C.cnat(pre["last_state"]["nit"])
 
 
-def chain_check(old, extras, n, r0, cps, reps):
+def chain_check(old, extras, n, r0, cps, reps, cfg=None):
+    cfg = cfg or {}
     """Boolean Coq term: the model agrees with everything observed along one crash chain."""
     ex = C.clist([C.cnat(e) for e in extras])
     parts = []
@@ -256,7 +305,7 @@ def chain_check(old, extras, n, r0, cps, reps):
         rep = reps[i]
         before = cps_coq(cps[:i])
         resume = r0 if i == 0 else True
-        head = "%s %s %s %s %s" % (C.cbool(old), ex, C.cnat(n), C.cbool(r0), before)
+        head = "%s %s %s %s %s" % (C.cbool(old), ex, C.cnat(n), rm(cfg, r0), before)
         if rep.get("snapshot"):
             continue                      # prefix of a complete traced run whose trace is checked on its own
         t = toks(rep["ops"])
@@ -267,11 +316,11 @@ def chain_check(old, extras, n, r0, cps, reps):
             parts.append("disk_ok %s %s %s %s" % (head, last_coq(pre), C.cbool("last.pkl.tmp" in pre["files"]),
                                                  C.cbool("minisanity.txt" in pre["files"])))
         if rep["outcome"] == "killed":
-            parts.append("killed_trace_ok %s %s %s %s" % (head, C.cbool(resume), C.cnat(cps[i][0]), t))
+            parts.append("killed_trace_ok %s %s %s %s" % (head, rm(cfg, resume), C.cnat(cps[i][0]), t))
         else:
-            parts.append("trace_ok %s %s %s" % (head, C.cbool(resume), t))
+            parts.append("trace_ok %s %s %s" % (head, rm(cfg, resume), t))
             obs = C.copt(rep["final"]["nit"], C.cnat) if rep["outcome"] == "ok" else "None"
-            parts.append("outcome_ok %s %s %s" % (head, C.cbool(resume), obs))
+            parts.append("outcome_ok %s %s %s" % (head, rm(cfg, resume), obs))
     return "(" + " && ".join("(%s)" % p for p in parts) + ")"
 
 
@@ -372,16 +421,19 @@ class C24(C.Check):
         ncorp = len(groups)
         groups += [(c, None, (lvl, nch, wr)) for c, lvl, nch, wr in gen_configs(ctx)]
 
+        for gi, (cfg, corp, plan) in enumerate(groups):
+            ensure_ckpt(ctx, cfg, self.wd(ctx, "ckpt%d" % gi))
+
         # phase 1: uninterrupted runs -- a plain one (own process) and, for generated configurations,
         # one that takes a snapshot of the directory at every crash point (and one started with resume=True)
         with ThreadPoolExecutor(WORKERS) as ex:
             fut = {}
             for gi, (cfg, corp, plan) in enumerate(groups):
-                fut[(gi, "a")] = ex.submit(run_chain, ctx, self.wd(ctx, "ref%d_a" % gi), cfg, [], False)
+                fut[(gi, "a")] = ex.submit(run_chain, ctx, self.wd(ctx, "ref%d_a" % gi), cfg, [], False)   # resume = eff(cfg, False)
                 if corp is None:
                     fut[(gi, "s")] = ex.submit(run_batch, ctx, self.wd(ctx, "ref%d_s.json" % gi), [plain_spec(
-                        self.wd(ctx, "ref%d_s" % gi), "ref", cfg, False, snap_rule={"level": plan[0], "dir": self.wd(ctx, "snap%d" % gi)})])
-                    if plan[2]:
+                        self.wd(ctx, "ref%d_s" % gi), "ref", cfg, eff(cfg, False), snap_rule={"level": plan[0], "dir": self.wd(ctx, "snap%d" % gi)})])
+                    if plan[2] and not cfg.get("resume0"):
                         fut[(gi, "r")] = ex.submit(run_batch, ctx, self.wd(ctx, "ref%d_r.json" % gi), [plain_spec(
                             self.wd(ctx, "ref%d_r" % gi), "ref", cfg, True, snap_rule={"level": "kill", "dir": self.wd(ctx, "snapr%d" % gi)})])
             first = {k: f.result()[0] for k, f in fut.items()}
@@ -417,8 +469,8 @@ class C24(C.Check):
                 raise C.MachineryError("C24: the snapshots taken do not match the crash points of the traced run")
             for t in taken:
                 snaps.append((gi, [(t["k"], t["mode"], t["frac"])], False,
-                              plain_spec(os.path.dirname(t["dest"]), "final", cfg, True, odir=t["dest"])))
-            if with_r:
+                              plain_spec(os.path.dirname(t["dest"]), "final", cfg, eff(cfg, True), odir=t["dest"])))
+            if with_r and not cfg.get("resume0"):
                 for t in first[(gi, "r")]["snaps_taken"][::3]:
                     snaps.append((gi, [(t["k"], t["mode"], t["frac"])], True,
                                   plain_spec(os.path.dirname(t["dest"]), "final", cfg, True, odir=t["dest"])))
@@ -452,23 +504,23 @@ class C24(C.Check):
         for gi, (cfg, corp, plan) in enumerate(groups):
             ref = refs[gi]
             n = cfg["n_iter"]
-            extras = extras_of(ref["ops"], n)
+            extras = extras_for(cfg, ref["ops"], n)
             ex_ = C.clist([C.cnat(e) for e in extras])
             t = toks(ref["ops"])
-            head = "false %s %s false []" % (ex_, C.cnat(n))
-            checks.append("false" if t is None else "(trace_ok %s false %s) && (outcome_ok %s false (Some %s))"
-                          % (head, t, head, C.cnat(ref["final"]["nit"])))
-            meta.append({"what": "operation sequence of the uninterrupted run", "cfg": cfg, "ops": ref["ops"]})
+            head = "false %s %s %s []" % (ex_, C.cnat(n), rm(cfg, False))
+            checks.append("false" if t is None else "(trace_ok %s %s %s) && (outcome_ok %s %s (Some %s))"
+                          % (head, rm(cfg, False), t, head, rm(cfg, False), C.cnat(ref["final"]["nit"])))
+            meta.append({"what": "operation sequence of the uninterrupted run", "cfg": public(cfg), "ops": ref["ops"]})
         for gi, cps, r0, reps, how in results:
             cfg, ref = groups[gi][0], refs[gi]
             n = cfg["n_iter"]
-            extras = extras_of(ref["ops"], n)
+            extras = extras_for(cfg, ref["ops"], n)
             self.obs.append((cfg, ref, cps, r0, reps))
-            checks.append(chain_check(False, extras, n, r0, cps, reps))
+            checks.append(chain_check(False, extras, n, r0, cps, reps, cfg=cfg))
             sm = state_file_mismatch(ref, reps)
             if sm and not any(b["name"] == "content of last.pkl vs model" for b in res.broken):
                 res.add_broken("correspondence", "content of last.pkl vs model", {"what": sm, "cfg": cfg, "cps": cps})
-            meta.append({"what": "crash chain (%s)" % how + (", first run with resume=True" if r0 else ""), "cfg": cfg,
+            meta.append({"what": "crash chain (%s)" % how + (", first run with resume=True" if r0 else ""), "cfg": public(cfg),
                          "cps": cps, "pre": reps[-1]["pre"], "final_ops": reps[-1]["ops"], "outcome": reps[-1]["outcome"]})
             for k, m, _ in cps:
                 modes[m] = modes.get(m, 0) + 1
@@ -508,7 +560,7 @@ class C24(C.Check):
                 if key in seen:
                     continue
                 seen.add(key)
-                res.add_failing(sig, f[1], {"case": cfg, "cps": [list(c) for c in cps], "r0": r0})
+                res.add_failing(sig, f[1], {"case": public(cfg), "cps": [list(c) for c in cps], "r0": r0})
         if budget > 1 and not res.failing and self.refs:
             # widen: all torn fractions and log-file points of the first configuration
             cfg, ref = self.refs[-1]
@@ -521,14 +573,15 @@ class C24(C.Check):
                 n += 1
                 f = direct_failure(ref, reps)
                 if f:
-                    res.add_failing(signature(f[0], reps), f[1], {"case": cfg, "cps": [list(c) for c in cps], "r0": False})
+                    res.add_failing(signature(f[0], reps), f[1], {"case": public(cfg), "cps": [list(c) for c in cps], "r0": False})
                     break
         res.coverage["impl_property_evaluations"] = n
         shutil.rmtree(work_root(ctx), ignore_errors=True)
 
     def replay(self, ctx, rp):
         i = rp["input"]
-        cfg = i["case"]
+        cfg = dict(i["case"])
+        ensure_ckpt(ctx, cfg, self.wd(ctx, "replay_ckpt"))
         ref = run_chain(ctx, self.wd(ctx, "replay_ref"), cfg, [], False)[0]
         reps = run_chain(ctx, self.wd(ctx, "replay"), cfg, sanitize(i["cps"], ref["ops"]), bool(i.get("r0", False)))
         f = direct_failure(ref, reps)
